@@ -84,6 +84,19 @@ func zzCopyIndependence() {
 	}
 	zz.Assert(same(c.Vars, t.Vars) && same(c.Env, t.Env) && same(c.IncludeVars, t.IncludeVars) && same(c.IncludedTaskfileVars, t.IncludedTaskfileVars), "copy-keeps-variable-maps")
 	zz.Assert(same(c.Cmds[0].Vars, t.Cmds[0].Vars) && same(c.Deps[0].Vars, t.Deps[0].Vars), "copy-keeps-call-variables")
+	// every field, at every depth (generated comparison: a field added later is covered too)
+	full := &Task{Task: "t", Label: "l", Desc: "d", Prompt: []string{"p"}, Summary: "s", Dir: "dir", Method: "m", Prefix: "pre", Run: "once",
+		Silent: true, Interactive: true, Internal: true, IgnoreError: true, Watch: true, Namespace: "ns",
+		Aliases: []string{"al"}, Dotenv: []string{"de"}, Set: []string{"e"}, Shopt: []string{"g"}, Status: []string{"st"},
+		Sources: []*Glob{{Glob: "g", Negate: true}}, Generates: []*Glob{{Glob: "o"}},
+		Preconditions: []*Precondition{{Sh: "p", Msg: "m"}}, Platforms: []*Platform{{OS: "os", Arch: "arch"}},
+		Requires: &Requires{Vars: []*VarsWithValidation{{Name: "r", Enum: []string{"x", "y"}}}},
+		Location: &Location{Line: 3, Column: 4, Taskfile: "f"},
+		Cmds: []*Cmd{{Cmd: "c", Task: "x", Silent: true, IgnoreError: true, Defer: true, Set: []string{"e"}, Shopt: []string{"g"},
+			Platforms: []*Platform{{OS: "os"}}, For: &For{From: "sources", List: []any{"a"}, Var: "v", Split: ",", As: "as"}, Vars: mk()}},
+		Deps: []*Dep{{Task: "d", Silent: true, For: &For{Var: "v"}, Vars: mk()}},
+		Vars: mk(), Env: mk(), IncludeVars: mk(), IncludedTaskfileVars: mk()}
+	zz.Assert(zz.DeepEqual(full.DeepCopy(), full), "copy-equals-original-in-every-field")
 }
 
 func ZZ_C08_Merge() {
